@@ -1134,7 +1134,7 @@ class Signature:
             else:
                 it = flow.expand(l.iter, flow.node_for(l), stop=lvars)
                 ext = "in " + penv.atom_name(it)
-            per_loop.append((l, {old: (f"L<{ext}>" if len(tnames) == 1 else f"L<{ext}>#{i}") for i, old in enumerate(tnames)}))
+            per_loop.append((l, {old: (f"L<{ext}>" if len(tnames) == 1 else f"L<{ext}>[{i}]") for i, old in enumerate(tnames)}))
         # each loop names its own variable(s): the same source name used by two loops with different extents stays distinct
         leaked = False
         comp_bound: set[int] = set()
